@@ -48,6 +48,12 @@ fn main() {
             let code = props::run(&ctx);
             std::process::exit(code);
         }
+        "c17-cold" => {
+            if args.len() < 4 {
+                usage();
+            }
+            std::process::exit(props::c17::cold_main(&args[2], args[3].parse().unwrap_or(8)));
+        }
         "c17-child" => {
             if args.len() < 3 {
                 usage();
